@@ -4,6 +4,7 @@ package main
 // VERIF_REPO/etcd/raft), for the trace validation of property C15.
 //
 //	harness_raft sim     <outdir> <seed> <first> <count> <nevents>
+//	harness_raft simcc   <outdir> <seed> <first> <count> <nevents>   (with membership changes)
 //	harness_raft simfile <schedule-file> <out-trace>
 //
 // Every node is a raft.RawNode over a raft.MemoryStorage that was initialised with a
@@ -19,6 +20,9 @@ package main
 //	P  i p          Propose(payload p)
 //	T  i            Tick()
 //	R  i            crash + restart: the RawNode is rebuilt from its MemoryStorage
+//	K  i k          compaction of the log up to (model) index k; SR i j: ReportSnapshot(j, failure)
+//	CC i code       (simcc only) ProposeConfChange: 100+x add voter x, 200+x remove voter x,
+//	                1000+10a+b add a and remove b through an auto-leave joint configuration
 //	D  i <msg>      Step(msg) of an in-flight message addressed to i (removed from the network)
 //	DD i <msg>      the same, but the message stays in flight (duplication)
 //	FP/FPD i from p Step of a forwarded MsgProp (FPD: it stays in flight)
@@ -56,6 +60,7 @@ import (
 
 func init() {
 	subcmds["sim"] = cmdSim
+	subcmds["simcc"] = cmdSimCC
 	subcmds["simfile"] = cmdSimFile
 }
 
@@ -81,6 +86,7 @@ type cluster struct {
 	n            int
 	electionTick int
 	maxSize      uint64
+	ccVoters     int // > 0: membership-change schedule; the initial voters are 1..ccVoters
 	nodes        []*simNode
 	flight       []flightMsg
 	w            *bufio.Writer
@@ -103,6 +109,12 @@ func monus1(x uint64) uint64 {
 }
 
 func payloadOf(e pb.Entry) uint64 {
+	switch e.Type {
+	case pb.EntryConfChange:
+		return 98
+	case pb.EntryConfChangeV2:
+		return 99
+	}
 	if len(e.Data) == 0 {
 		return 0
 	}
@@ -167,10 +179,14 @@ func (c *cluster) config(nd *simNode) *raft.Config {
 	}
 }
 
-func newCluster(n, electionTick int, rngseed uint64, maxSize uint64, w *bufio.Writer) (*cluster, error) {
-	c := &cluster{n: n, electionTick: electionTick, maxSize: maxSize, w: w, nextPayload: 1}
+func newCluster(n, electionTick int, rngseed uint64, maxSize uint64, ccVoters int, w *bufio.Writer) (*cluster, error) {
+	c := &cluster{n: n, electionTick: electionTick, maxSize: maxSize, ccVoters: ccVoters, w: w, nextPayload: 1}
 	reseedRaftRand(rngseed)
-	voters := make([]uint64, n)
+	nv := n
+	if ccVoters > 0 && ccVoters < n {
+		nv = ccVoters
+	}
+	voters := make([]uint64, nv)
 	for i := range voters {
 		voters[i] = uint64(i + 1)
 	}
@@ -187,7 +203,7 @@ func newCluster(n, electionTick int, rngseed uint64, maxSize uint64, w *bufio.Wr
 		nd.rn = rn
 		c.nodes = append(c.nodes, nd)
 	}
-	fmt.Fprintf(w, "N %d %d %d %d\n", n, electionTick, rngseed, maxSize)
+	fmt.Fprintf(w, "N %d %d %d %d %d\n", n, electionTick, rngseed, maxSize, ccVoters)
 	// the initial Ready only persists HardState{Commit:1}; drain it silently
 	for _, nd := range c.nodes {
 		c.drain(nd)
@@ -226,6 +242,22 @@ func (c *cluster) drain(nd *simNode) []pb.Message {
 			}
 		}
 		out = append(out, rd.Messages...)
+		for _, e := range rd.CommittedEntries {
+			switch e.Type {
+			case pb.EntryConfChange:
+				var cc pb.ConfChange
+				if err := cc.Unmarshal(e.Data); err != nil {
+					panic(err)
+				}
+				nd.rn.ApplyConfChange(cc)
+			case pb.EntryConfChangeV2:
+				var cc pb.ConfChangeV2
+				if err := cc.Unmarshal(e.Data); err != nil {
+					panic(err)
+				}
+				nd.rn.ApplyConfChange(cc)
+			}
+		}
 		nd.rn.Advance(rd)
 	}
 	return out
@@ -286,7 +318,7 @@ func (c *cluster) exec(kind string, i int, payload int, m *flightMsg) (ok bool) 
 		fmt.Fprintf(c.w, "EV %s %d\n", kind, nd.id)
 	case "R":
 		fmt.Fprintf(c.w, "EV %s %d\n", kind, nd.id)
-	case "K", "SR":
+	case "K", "SR", "CC":
 		fmt.Fprintf(c.w, "EV %s %d %d\n", kind, nd.id, payload)
 	case "D", "DD":
 		fmt.Fprintf(c.w, "EV %s %d %s\n", kind, nd.id, msgKey(*m))
@@ -322,6 +354,19 @@ func (c *cluster) exec(kind string, i int, payload int, m *flightMsg) (ok bool) 
 		}
 	case "SR":
 		nd.rn.ReportSnapshot(uint64(payload), raft.SnapshotFailure)
+	case "CC":
+		// 100+x: add voter x; 200+x: remove voter x; 1000+10a+b: add a and remove b through a
+		// joint configuration that is left automatically
+		switch {
+		case payload >= 1000:
+			a, b := uint64((payload-1000)/10), uint64((payload-1000)%10)
+			_ = nd.rn.ProposeConfChange(pb.ConfChangeV2{Changes: []pb.ConfChangeSingle{
+				{Type: pb.ConfChangeAddNode, NodeID: a}, {Type: pb.ConfChangeRemoveNode, NodeID: b}}})
+		case payload >= 200:
+			_ = nd.rn.ProposeConfChange(pb.ConfChange{Type: pb.ConfChangeRemoveNode, NodeID: uint64(payload - 200)})
+		default:
+			_ = nd.rn.ProposeConfChange(pb.ConfChange{Type: pb.ConfChangeAddNode, NodeID: uint64(payload - 100)})
+		}
 	case "D", "DD", "FP", "FPD":
 		nd.pendingGhost = m.ghost
 		_ = nd.rn.Step(m.m)
@@ -353,16 +398,20 @@ func (c *cluster) exec(kind string, i int, payload int, m *flightMsg) (ok bool) 
 // ---------------------------------------------------------------------------- random schedules
 
 type profile struct {
-	wDeliver, wDup, wDrop, wTick, wPropose, wCampaign, wRestart, wCrashMid, wPartition, wCompact int
+	wDeliver, wDup, wDrop, wTick, wPropose, wCampaign, wRestart, wCrashMid, wPartition, wCompact, wConf int
 }
 
 func (c *cluster) runRandom(r *rng, nevents int) {
 	p := profile{wDeliver: 50 + r.intn(40), wDup: r.intn(8), wDrop: r.intn(10), wTick: 4 + r.intn(12),
 		wPropose: 4 + r.intn(12), wCampaign: 1 + r.intn(6), wRestart: r.intn(5), wCrashMid: r.intn(4), wPartition: r.intn(3)}
-	if r.chance(1, 2) {
+	if c.ccVoters > 0 {
+		// membership-change schedules: no compaction (a snapshot would need the ConfState as of
+		// its index), conf changes instead
+		p.wConf = 2 + r.intn(8)
+	} else if r.chance(1, 2) {
 		p.wCompact = 1 + r.intn(6)
 	}
-	total := p.wDeliver + p.wDup + p.wDrop + p.wTick + p.wPropose + p.wCampaign + p.wRestart + p.wCrashMid + p.wPartition + p.wCompact
+	total := p.wDeliver + p.wDup + p.wDrop + p.wTick + p.wPropose + p.wCampaign + p.wRestart + p.wCrashMid + p.wPartition + p.wCompact + p.wConf
 	isolated := make([]bool, c.n)
 	deliverable := func() []int {
 		var idx []int
@@ -458,6 +507,21 @@ func (c *cluster) runRandom(r *rng, nevents int) {
 			} else {
 				ok = c.exec("SR", i, 1+r.intn(c.n), nil)
 			}
+		case x < p.wDeliver+p.wDup+p.wDrop+p.wTick+p.wPropose+p.wCampaign+p.wRestart+p.wCrashMid+p.wCompact+p.wConf:
+			// a membership change proposed at a random node (node 1 is never removed, so that no
+			// sequence of changes can empty the configuration, which raft treats as an application bug)
+			var code int
+			switch r.intn(5) {
+			case 0, 1:
+				code = 100 + 1 + r.intn(c.n)
+			case 2, 3:
+				code = 200 + 2 + r.intn(c.n-1)
+			default:
+				code = 1000 + 10*(1+r.intn(c.n)) + 2 + r.intn(c.n-1)
+			}
+			if c.n >= 2 {
+				ok = c.exec("CC", r.intn(c.n), code, nil)
+			}
 		default:
 			// change the partition: isolate a random minority-or-not set, or heal
 			if r.chance(1, 2) {
@@ -474,6 +538,21 @@ func (c *cluster) runRandom(r *rng, nevents int) {
 			return
 		}
 	}
+}
+
+// simcc = sim with membership changes (monitored, not model-validated)
+var simWithConfChanges bool
+
+func ccFor(r *rng, n int) int {
+	if !simWithConfChanges {
+		return 0
+	}
+	return 1 + r.intn(n)
+}
+
+func cmdSimCC(args []string) error {
+	simWithConfChanges = true
+	return cmdSim(args)
 }
 
 func cmdSim(args []string) error {
@@ -515,7 +594,7 @@ func cmdSim(args []string) error {
 			maxSize = 0
 		}
 		fmt.Fprintf(w, "SCHEDULE %d\n", k)
-		c, err := newCluster(n, et, ss, maxSize, w)
+		c, err := newCluster(n, et, ss, maxSize, ccFor(r, n), w)
 		if err != nil {
 			return err
 		}
@@ -564,7 +643,11 @@ func cmdSimFile(args []string) error {
 			if len(tok) > 4 {
 				ms, _ = strconv.ParseUint(tok[4], 10, 64)
 			}
-			c, err = newCluster(n, et, rs, ms, w)
+			ccv := 0
+			if len(tok) > 5 {
+				ccv, _ = strconv.Atoi(tok[5])
+			}
+			c, err = newCluster(n, et, rs, ms, ccv, w)
 			if err != nil {
 				return err
 			}
@@ -582,7 +665,7 @@ func cmdSimFile(args []string) error {
 			switch base {
 			case "C", "T", "R":
 				ok = c.exec(kind, id-1, 0, nil)
-			case "P", "SR":
+			case "P", "SR", "CC":
 				p, _ := strconv.Atoi(tok[3])
 				ok = c.exec(kind, id-1, p, nil)
 			case "K":
